@@ -27,9 +27,13 @@ THEOREMS = [
     'AbacusVerif.Euler16.coverage_partial',
     'AbacusVerif.Euler16.coverage',
     'AbacusVerif.Euler16.coverage_degrees',
+    # the catalogue columns: decided over the loader table regenerated from /repo (symbolic execution of the closures)
+    'AbacusVerif.EulerLoaders.eigvec_columns_are_decoded_axes',
+    'AbacusVerif.EulerLoaders.eigvec_groups_are_own_triads',
+    'AbacusVerif.EulerLoaders.only_eigvec_columns_use_euler',
 ]
 DRIVER = 'drv_c18'
-LEAN_MODULES = ['AbacusVerif.Props.C18']
+LEAN_MODULES = ['AbacusVerif.Props.C18', 'AbacusVerif.Props.C18Loaders']
 RULE = ('exhaustive: every valid code 0 <= code < 12*TBIN^2*ABIN (= 65340) is decoded by the real '
         '_unpack_euler16 (uint16 input as stored in the catalogs) and by the model driver and compared '
         'componentwise; every code is also routed through _load_halo_field/eigvecs_loader into float32 '
@@ -62,6 +66,13 @@ GROUPS = [(rnv, com) for rnv in ('sigmar', 'sigman', 'sigmav') for com in ('_com
 def extract(ctx):
     from extract import eulerconsts
     from vcommon import LEAN
+    try:
+        # Generated/Loaders.lean (shared with C02 / C05): the eigenvector loader entries are what
+        # Props/C18Loaders.lean decides over
+        from extract import loaders
+        loaders.extract(ctx)
+    except Exception as e:   # noqa: BLE001
+        ctx.tie('loader-table', '%s: %s' % (type(e).__name__, str(e)[:300]))
     try:
         consts, changed = eulerconsts.generate(LEAN)
     except eulerconsts.ExtractError as e:
